@@ -94,13 +94,22 @@ def ensure(translators=('flags',)):
         if not st.build_ok:
             st.wall = time.time() - t0
             return st
-        rc2, out2 = _run(['lake', 'build', 'Gen', 'Tie'])
+        rc2, out2 = _run(['lake', 'build', 'Gen', 'Tie', 'xdriver'])
         st.build_log += out2
         if rc2 != 0:
             for m in re.finditer(r'^- ([\w.]+)\s*$', out2, flags=re.M):
                 st.failed_modules.append(m.group(1))
             if not st.failed_modules:
                 st.failed_modules.append('Tie')
+            # a failing Gen module takes the Tie module that imports it with it
+            for g, t in (('Gen.Flags', 'Tie.Flags'), ('Gen.Excerpt', 'Tie.Excerpt')):
+                if g in st.failed_modules and t not in st.failed_modules:
+                    st.failed_modules.append(t)
+            if any(m in st.failed_modules for m in ('Gen.Excerpt', 'Tie.Excerpt', 'xdriver', 'XDriver')):
+                # build the other tie modules on their own so that one broken tie does not hide the rest
+                _run(['lake', 'build', 'Gen.Flags', 'Tie.Flags'])
+            if any(m in st.failed_modules for m in ('Gen.Flags', 'Tie.Flags')):
+                _run(['lake', 'build', 'Gen.Excerpt', 'Tie.Excerpt', 'xdriver'])
         # --- forbidden tokens --------------------------------------------------------------
         for f in _sources():
             with open(f) as fh:
